@@ -1,7 +1,9 @@
 #!/usr/bin/env python3
 """re-run checks against one stored seeded change after a check was strengthened:
    tools/seed_recheck.py <seeded id> <checks,comma> ["note on what was strengthened"]
-keeps the first result under verified_by_main_session.before_strengthening"""
+keeps the first result under verified_by_main_session.before_strengthening
+   SEED_ALSO_APPLY=<patch file>[,<patch file>] : repairs proposed under proposed_fixes/ that are not yet in /repo and without
+   which a check fails on the unchanged tree already (applied to the scratch worktree before the seeded change)"""
 import glob, json, os, shutil, subprocess, sys
 V = os.path.dirname(os.path.dirname(os.path.abspath(__file__)))
 sid, checks = sys.argv[1], sys.argv[2].split(",")
@@ -13,6 +15,10 @@ wt = "/tmp/rw/recheck_%s" % sid
 subprocess.run(["git", "-C", "/repo", "worktree", "remove", "--force", wt], capture_output=True)
 subprocess.run(["git", "-C", "/repo", "worktree", "add", "--detach", wt], check=True, capture_output=True)
 try:
+    for extra in [x for x in os.environ.get("SEED_ALSO_APPLY", "").split(",") if x]:
+        ex = subprocess.run(["git", "-C", wt, "apply", "--whitespace=nowarn", os.path.abspath(extra)], capture_output=True, text=True)
+        if ex.returncode != 0:
+            print("repair %s does not apply (already in /repo?): %s" % (extra, ex.stderr[:200]))
     ap = subprocess.run(["git", "-C", wt, "apply", "--whitespace=nowarn", os.path.join(d, "patch.diff")], capture_output=True, text=True)
     if ap.returncode != 0:
         print("patch does not apply to /repo HEAD:", ap.stderr[:300]); sys.exit(2)
